@@ -312,8 +312,54 @@ def judge_lock(ctx, rng, j):
         else:
             ctx.tab('native_vs_nonnative', a is True)
             ctx.mark_nontrivial(dg('nn', lock, w))
+    # ---- (f) the same with an embedder signature extension registered for
+    # the whole process (it rewrites the message once per signature-related
+    # instruction): builder key spends made under it unlock both lock forms,
+    # and the two forms still agree on every witness
+    if j % 4 == 1:
+        import tapescript
+
+        tapescript.add_signature_extension(_ext)
+        try:
+            ks = []
+            for g in sorted({0, max(permitted)}):
+                try:
+                    ks.append(bytes(tools.make_taproot_witness_keyspend(
+                        seed, dict(fields), script, sigflags=f'{g:02x}')))
+                except BaseException:
+                    pass
+            for w in ks + ws[:4]:
+                ctx.evaluated()
+                a = run_auth([w, lock], fields)
+                b = run_auth([w, nn], fields)
+                honest = w in ks
+                ctx.tab('with_extension', f'honest={honest} native={a is True}')
+                if (a is True) != (b is True):
+                    ctx.violation('native-nonnative-differ', 'with a '
+                                  'signature extension registered, native '
+                                  'and non-native lock give different '
+                                  'verdicts', dict(base, kind='nn-ext',
+                                                   witness=w, nonnative=nn),
+                                  f'native={a!r}'[:60],
+                                  f'nonnative={b!r}'[:60])
+                    break
+                if honest and a is not True:
+                    ctx.violation('builder-keyspend-rejected', 'with a '
+                                  'signature extension registered, the '
+                                  "builder's key-spend witness (made under "
+                                  'it) does not unlock its lock',
+                                  dict(base, kind='nn-ext', witness=w,
+                                       nonnative=nn), True, repr(a)[:60])
+                    break
+        finally:
+            tapescript.reset_signature_extensions()
     if j % 40 == 0:
         ctx.sample({'lock': lock, 'committed': S, 'allowed': allowed})
+
+
+def _ext(tape, stack, cache):
+    cache['sigfield1'] = hashlib.sha256(
+        b'ext' + cache.get('sigfield1', b'')).digest()[:9]
 
 
 def judge_empty_commitment(ctx, rng, j):
@@ -418,6 +464,16 @@ def replay(case, ctx):
                 if (got is True) != want:
                     ctx.violation('keypath-replay', 'replay', case, want,
                                   repr(got))
+        elif k == 'nn-ext':
+            import tapescript
+            tapescript.add_signature_extension(_ext)
+            try:
+                a = run_auth([case['witness'], lock], fields)
+                b = run_auth([case['witness'], case['nonnative']], fields)
+            finally:
+                tapescript.reset_signature_extensions()
+            if (a is True) != (b is True):
+                ctx.violation('native-nonnative-differ', 'replay', case)
         elif k == 'nn':
             a = run_auth([case['witness'], lock], fields)
             b = run_auth([case['witness'], case['nonnative']], fields)
